@@ -1,4 +1,5 @@
 """C10 — template parsing is total; two structural clauses of the fidelity half."""
+import os
 from .. import common as K
 from .. import ledger as Lg
 from ..facts import operand_local, const_val
@@ -34,6 +35,7 @@ def run(ctx, crate):
     rule_brace_not_dropped(ctx, crate)
     rule_literal_in_order(ctx, crate)
     rule_keys_matched_whole(ctx, crate)
+    rule_key_terminators(ctx, crate)
     rule_template_only_parser(ctx, crate)
     rule_chars_not_bytes(ctx, crate)
     # a declared `{key:width}` (any width up to u16::MAX) is rendered with exactly the declared width/alignment/truncate
@@ -288,6 +290,168 @@ def rule_literal_in_order(ctx, crate, rule="R-LITERAL-IN-ORDER"):
                   "with a '{' pending (state MaybeOpen) the text read before the brace is still in the buffer, and the literal emitted here puts \"{\" in front of it "
                   "(or leaves it for later): \"a{ b\" renders as \"{a b\"", cfg)
     ctx.floor(rule, n, 1, cfg, "brace literals emitted under state MaybeOpen")
+
+
+def rule_key_terminators(ctx, crate, rule="R-KEY-TERMINATORS"):
+    """"placeholders of the form {key[:[<^>][width][!][.style[/style]]]}": a key ends at ':' or at '}' and nowhere else - every
+    other character read in the parser state `Key` belongs to the key (`{done!}` names the key `done!`). On the CFG specialised to
+    state == Key, a small symbolic walk tracks what the tests along a path say about the character read (`== v` after a value
+    edge or a failed `!=`, `not in S` otherwise); a transition to another state must be reached only with the character pinned to
+    ':' or '}' (seed C10m: the dead arm `(Key, '!')` moved above the catch-all arm, `!` then ends the key and `{pos!}` renders the
+    position)."""
+    cfg = crate.config
+    b = K.find_one(ctx, crate, rule, r"style::Template::from_str_with_tab_width")
+    if not b:
+        return
+    states = [i for i, l in enumerate(b.locals) if l["ty"] == "style::State" and l.get("name") == "state"]
+    news = [i for i, l in enumerate(b.locals) if l["ty"].replace(" ", "") == "(style::State,std::option::Option<char>)"]
+    if len(states) != 1 or not news:
+        ctx.lost(rule, cfg, "parser locals `state` / `new` not found")
+        return
+    st = states[0]
+
+    def from_state(pl):
+        l = pl["l"]
+        if l == st:
+            return not pl["p"]
+        for d in b.defs().get(l, ()):
+            if d["kind"] == "assign" and d["rv"]["k"] == "agg" and d["rv"].get("ak") == "tuple" and pl["p"] and isinstance(pl["p"][0], dict) and pl["p"][0].get("f") == 0:
+                src = operand_local(d["rv"]["ops"][0])
+                while src is not None and src != st:
+                    ds = [x for x in b.defs().get(src, ()) if x["kind"] == "assign" and x["rv"]["k"] == "use"]
+                    src = operand_local(ds[0]["rv"]["op"]) if len(ds) == 1 else None
+                return src == st
+        return False
+    first = [x for x in K.discr_switches(b) if K.head_of_type(x[2].get("ty", "")) == "style::State" and from_state(x[2])
+             and b.locals[x[2]["l"]]["ty"].replace(" ", "") == "(style::State,char)"]
+    if not first:
+        ctx.lost(rule, cfg, "no discriminant test of the (state, character) pair found")
+        return
+    tl = first[0][2]["l"]
+    pred = lambda pl: pl["l"] == tl and from_state(pl)
+    R, avoid = K.variant_reach(b, crate, "style::State", "Key", pred, want_avoid=True)
+    avoid = set(avoid)
+    # locals that hold the character read: the pair's second component and plain copies of it
+    chars = set()
+    for i, j, s_ in b.assigns():
+        rv = s_["rv"]
+        if rv["k"] == "use" and rv["op"].get("k") in ("copy", "move") and not s_["lhs"]["p"] and b.locals[s_["lhs"]["l"]]["ty"] == "char":
+            pl = rv["op"]["place"]
+            if (pl["l"] == tl and len(pl["p"]) == 1 and isinstance(pl["p"][0], dict) and pl["p"][0].get("f") == 1) or (pl["l"] in chars and not pl["p"]):
+                chars.add(s_["lhs"]["l"])
+
+    crefs = set()       # references to the character (`&pair.1`, as guards take it)
+
+    def char_place(pl):
+        return (pl["l"] == tl and len(pl["p"]) == 1 and isinstance(pl["p"][0], dict) and pl["p"][0].get("f") == 1) or \
+            (pl["l"] in chars and not pl["p"]) or (pl["l"] in crefs and pl["p"] == ["*"])
+
+    def is_char(op):
+        return isinstance(op, dict) and op.get("k") in ("copy", "move") and char_place(op["place"])
+
+    def cval(op):
+        v = op.get("v") if isinstance(op, dict) and op.get("k") == "const" else None
+        return ord(v) if isinstance(v, str) and len(v) == 1 else v if isinstance(v, int) and not isinstance(v, bool) else None
+    # bool locals that compare the character with a constant: local -> (op, value)
+    cmps = {}
+    ws = set()          # bool locals: `c.is_ascii_whitespace()` / `c.is_whitespace()` of the character
+    for rounds in range(4):
+        for i, j, s_ in b.assigns():
+            rv = s_["rv"]
+            if rv["k"] == "ref" and not s_["lhs"]["p"] and char_place(rv["place"]):
+                crefs.add(s_["lhs"]["l"])
+            if rv["k"] == "use" and rv["op"].get("k") in ("copy", "move") and not s_["lhs"]["p"]:
+                if b.locals[s_["lhs"]["l"]]["ty"] == "char" and char_place(rv["op"]["place"]):
+                    chars.add(s_["lhs"]["l"])
+                elif rv["op"]["place"]["l"] in crefs and not rv["op"]["place"]["p"]:
+                    crefs.add(s_["lhs"]["l"])
+            if rv["k"] == "bin" and rv["op"] in ("Eq", "Ne") and not s_["lhs"]["p"]:
+                for x, y in ((rv["a"], rv["b"]), (rv["b"], rv["a"])):
+                    if is_char(x) and cval(y) is not None:
+                        cmps[s_["lhs"]["l"]] = (rv["op"], cval(y))
+        for c_ in b.calls(r"(core|std)::char::methods::<impl char>::(is_ascii_whitespace|is_whitespace)"):
+            a_ = c_.args[0] if c_.args else None
+            if isinstance(a_, dict) and a_.get("k") in ("copy", "move") and (a_["place"]["l"] in crefs or char_place(a_["place"])) and not c_.dest["p"]:
+                ws.add(c_.dest["l"])
+    trans = {}
+    for i, j, s_ in b.assigns():
+        if i in R and s_["lhs"]["l"] in news and not s_["lhs"]["p"] and s_["rv"]["k"] == "agg" and s_["rv"].get("ak") == "tuple":
+            a0 = [d for d in b.defs().get(operand_local(s_["rv"]["ops"][0]), ()) if d["kind"] == "assign" and d["rv"]["k"] == "agg"]
+            if len(a0) == 1 and a0[0]["rv"].get("variant") is not None:
+                trans[i] = (a0[0]["rv"].get("variant"), s_.get("line", 0))      # (a transition ends the iteration of the parser loop)
+    ctx.floor(rule, len([1 for v_, l_ in trans.values() if v_ != "Key"]), 2, cfg, "transitions out of the parser state Key")
+    reached = {}
+    seen = set()
+    work = [(first[0][0], ("ne", frozenset()))]
+    trail = {}
+    cur = [None]
+
+    def _push(item):
+        trail.setdefault(item, cur[0])
+        work.append(item)
+    while work and len(seen) < 20000:
+        bb, cs = work.pop()
+        cur[0] = (bb, cs)
+        if (bb, cs) in seen or bb not in R:
+            continue
+        seen.add((bb, cs))
+        if bb in trans:
+            reached.setdefault(bb, set()).add(cs)
+            if os.environ.get("VERIF_DEBUG_KEY"):
+                chain, x_ = [], (bb, cs)
+                while x_ is not None and len(chain) < 60:
+                    chain.append((x_[0], x_[1][0], sorted(x_[1][1]) if isinstance(x_[1][1], frozenset) else x_[1][1]))
+                    x_ = trail.get(x_)
+                print("REACH", bb, trans[bb], cs, chain[::-1])
+            continue
+        t = b.term(bb)
+        succs = [x for x in b.succ(bb) if (bb, x) not in avoid]
+        if t and t["k"] == "switch":
+            l = operand_local(t["op"])
+            if is_char(t["op"]):
+                listed = {v for v, tb in t["targets"]}
+                for v, tb in t["targets"]:
+                    if (bb, tb) in avoid:
+                        continue
+                    if (cs[0] == "eq" and cs[1] == v) or (cs[0] == "ne" and v not in cs[1]):
+                        _push((tb, ("eq", v)))
+                if (bb, t["otherwise"]) not in avoid:
+                    if cs[0] == "eq" and cs[1] not in listed:
+                        _push((t["otherwise"], cs))
+                    elif cs[0] == "ne":
+                        _push((t["otherwise"], ("ne", cs[1] | frozenset(listed))))
+                continue
+            if l in ws and not t["op"]["place"]["p"]:
+                zero = [tb for vv, tb in t["targets"] if vv == 0]
+                if (bb, t["otherwise"]) not in avoid and cs[0] != "eq":
+                    _push((t["otherwise"], ("ws", frozenset())))
+                if zero and (bb, zero[0]) not in avoid:
+                    _push((zero[0], cs))
+                continue
+            if l in cmps and not t["op"]["place"]["p"]:
+                op_, v = cmps[l]
+                zero = [tb for vv, tb in t["targets"] if vv == 0]
+                f_edge, t_edge = (zero[0] if zero else None), t["otherwise"]
+                eq_edge, ne_edge = (t_edge, f_edge) if op_ == "Eq" else (f_edge, t_edge)
+                if eq_edge is not None and (bb, eq_edge) not in avoid and ((cs[0] == "eq" and cs[1] == v) or (cs[0] == "ne" and v not in cs[1])):
+                    _push((eq_edge, ("eq", v)))
+                if ne_edge is not None and (bb, ne_edge) not in avoid and not (cs[0] == "eq" and cs[1] == v):
+                    _push((ne_edge, cs if cs[0] == "eq" else ("ne", cs[1] | frozenset([v]))))
+                continue
+        for x in succs:
+            _push((x, cs))
+    ok_chars = {ord("}"), ord(":")}
+    for bb, (variant, line) in sorted(trans.items()):
+        if variant == "Key":
+            continue
+        css = reached.get(bb, set())
+        # (white space after the brace/key makes the whole thing literal text again: the documented "brace followed by whitespace" rule)
+        bad = sorted({chr(c[1]) if c[0] == "eq" else "any other character" for c in css
+                      if not (c[0] == "eq" and c[1] in ok_chars) and not (c[0] == "ws" and variant == "Literal")})
+        ctx.check(not bad, rule, "key->%s" % variant, b.name, "%s:%d" % (b.file, line),
+                  "in state Key the parser moves on to %s only for ':' or '}'" % variant,
+                  "in state Key the character %s ends the key (transition to %s): it is part of the key in the documented grammar - `{done!}` no longer names the key "
+                  "`done!`, and an unknown key `pos!` renders the position" % (" / ".join(repr(x) for x in bad), variant), cfg)
 
 
 def rule_keys_matched_whole(ctx, crate, rule="R-KEYS-MATCHED-WHOLE"):
